@@ -156,14 +156,22 @@ func c20Eval(src string, overrides map[string]string) *Case {
 	return c
 }
 
-type mdGen struct{ r *rand.Rand }
+type mdGen struct {
+	r      *rand.Rand
+	inLink int
+}
 
-var mdWords = []string{`\&copy;`, `\&amp;`, `\&#35;`, `&#38;lt;`, `&#38;amp;`, `\&nbsp;`, `&amp;copy;`, `\\&amp;`, "alpha", "beta", "gamma", "delta", "x < y", "a & b", "&amp;", "&copy;", "&lt;b&gt;", `\*not em\*`, `back\\slash`, "{{ name }}", "{{secret}}", "<there>", "1 > 0", "it's", `"quoted"`, "tail.", "C++", "a_b_c", "100%"}
+var mdWords = []string{"www.example.com", "www.example.org/path?x=1&y=2", "https://bare.example/x", "<https://angle.example/a?b=c>", "<me@example.com>", "bare@example.com", `\&copy;`, `\&amp;`, `\&#35;`, `&#38;lt;`, `&#38;amp;`, `\&nbsp;`, `&amp;copy;`, `\\&amp;`, "alpha", "beta", "gamma", "delta", "x < y", "a & b", "&amp;", "&copy;", "&lt;b&gt;", `\*not em\*`, `back\\slash`, "{{ name }}", "{{secret}}", "<there>", "1 > 0", "it's", `"quoted"`, "tail.", "C++", "a_b_c", "100%"}
 
 func (g *mdGen) words(n int) string {
 	var p []string
 	for i := 0; i < n; i++ {
-		p = append(p, mdWords[g.r.Intn(len(mdWords))])
+		w := mdWords[g.r.Intn(len(mdWords))]
+		// no link inside link text (the HTML parser restructures nested anchors; CommonMark forbids them)
+		for g.inLink > 0 && (strings.Contains(w, "@") || strings.Contains(w, "www.") || strings.Contains(w, "://")) {
+			w = mdWords[g.r.Intn(len(mdWords))]
+		}
+		p = append(p, w)
 	}
 	return strings.Join(p, " ")
 }
@@ -183,12 +191,21 @@ func (g *mdGen) inline(d int) string {
 		if g.r.Intn(2) == 0 {
 			t = ` "the title"`
 		}
-		return "[" + g.inline(d+1) + "](http://example.com/p?a=1&b=2" + t + ")"
+		if g.inLink > 0 {
+			return g.words(1)
+		}
+		g.inLink++
+		txt := g.inline(d + 1)
+		g.inLink--
+		return "[" + txt + "](http://example.com/p?a=1&b=2" + t + ")"
 	case x == 8:
 		return "![alt " + g.words(1) + "](img.png \"t\")"
 	case x == 9:
 		return "~~" + g.inline(d+1) + "~~"
 	case x == 10:
+		if g.inLink > 0 {
+			return g.words(1)
+		}
 		return "<http://auto.link/x>"
 	default:
 		return "<span class=\"raw\">raw</span>"
